@@ -120,7 +120,7 @@ def norm_vjp(ans, x, ord=None, axis=None):
             # Roll the matrix axes back to their correct positions
             uvt = unroll(uvt_rolled)
             g = expand(g)
-            return g * uvt
+            return g * anp.conj(uvt)
         else:
             # see https://en.wikipedia.org/wiki/Norm_(mathematics)#p-norm
             return expand(g / ans ** (ord - 1)) * anp.conj(x) * anp.abs(x) ** (ord - 2)
@@ -168,7 +168,7 @@ def norm_jvp(g, ans, x, ord=None, axis=None):
         uvt_rolled = _dot(u, vt)
         # Roll the matrix axes back to their correct positions
         uvt = unroll(uvt_rolled)
-        return contract(g * uvt)
+        return contract(anp.real(g * anp.conj(uvt)))
     else:
         # see https://en.wikipedia.org/wiki/Norm_(mathematics)#p-norm
         return contract(anp.real(g * anp.conj(x)) * anp.abs(x) ** (ord - 2)) / ans ** (ord - 1)
